@@ -37,6 +37,7 @@ import os
 import random
 import subprocess
 import sys
+import zlib
 
 sys.path.insert(0, os.path.dirname(os.path.abspath(__file__)))
 import common as C
@@ -181,11 +182,11 @@ def c03_part(solver, op_line, out_line, st):
     if solver.name == 'ocp':
         return LM.c13_part(op_line, out_line, st)
     if solver.name == 'fista':
-        return c03.monitor(op_line, out_line, st, parse=solver.mod.parse_out)
-    if solver.name == 'pantr':
-        return solver.mod.c03_monitor(op_line, out_line)
-    o2, h2 = solver.c03_view(op_line, out_line)
-    return c03.monitor(o2, h2, st)
+        m = c03.monitor(op_line, out_line, st, parse=solver.mod.parse_out)
+    else:
+        o2, h2 = solver.c03_view(op_line, out_line)
+        m = c03.monitor(o2, h2, st)
+    return LM.own_findings_only(m, 'C19', bump)          # C03's own open findings are C03's
 
 
 def monitor(op_line, out_line, st, solver=None):
@@ -208,6 +209,9 @@ def monitor(op_line, out_line, st, solver=None):
     if m:
         return m
     m = c06_loop.monitor(op_line, out_line, st, flavor=flavor)
+    if m:
+        return m
+    m = LM.iterate_consistency(flavor, op_line, out_line, 'C19', bump)
     if m:
         return m
     r = c06_loop.parse(flavor, out_line)
@@ -277,7 +281,7 @@ def monitor(op_line, out_line, st, solver=None):
 
 
 def nontrivial(op_line, out_line):
-    return hash(op_line) if ' ; EV stoptick ' in out_line else None
+    return zlib.crc32(op_line.encode()) if ' ; EV stoptick ' in out_line else None
 
 
 # ------------------------------------------------------------------ real threads
@@ -349,7 +353,7 @@ def thread_monitor(op_line, out_line):
             return (f'[{solver}] stop() was called in time ({at_stop} evaluations begun) but the solve went on '
                     f'for {total - at_stop} evaluations and returned {status}')
     # outputs consistent (same relations as any other exit)
-    return c03.monitor(op_line, out_line, {})
+    return LM.own_findings_only(c03.monitor(op_line, out_line, {}), 'C19', bump)
 
 
 def thread_stage(rep, broken, tier):
